@@ -10,3 +10,4 @@ import OapiVerif.Props.C13
 import OapiVerif.Props.C01
 import OapiVerif.Props.C17
 import OapiVerif.Props.C02
+import OapiVerif.Props.C08
